@@ -286,14 +286,48 @@ def spec_check(case, impl):
         ret = int(kv["ret"])
         nmsgs = 0 if f[6].split(";")[2] == "-" else len(f[6].split(";")[2].split("+"))
         if kind == "ok":
-            # every line addresses an existing port unless it lies below a pointer sub-tree
-            hard = any(fp.hard for fp in ref.flat)
-            if ret != nmsgs and not hard:
+            # every line addresses a port and carries a value it takes; whether the port EXISTS when the line's
+            # turn comes (below a pointer sub-tree: only while its switch is on) is decided by running the lines
+            # on the reference semantics in a dependency-respecting order (switches and selectors first)
+            accepted = rej_all_accepted(ref, f[6].split(";")[2])
+            if accepted and ret != nmsgs:
                 return "accept: a well-formed file of %d lines gave %d" % (nmsgs, ret)
+            if not accepted and ret >= 0:
+                return "reject: a line below an absent pointer sub-tree was accepted (result %d)" % ret
         elif ret >= 0:
             return "reject: a file with a bad part (%s) was accepted with result %d" % (kind, ret)
         return None
     return None
+
+def rej_all_accepted(ref, items):
+    """the hand-written lines of a `rej` case applied to a default-initialised instance: True when every
+    line reaches a port"""
+    if items == "-":
+        return True
+    def scalar(t):
+        if t in ("T", "F"):
+            return (t, None)
+        if t[0] in "ic":
+            return (t[0], int(t[1:]))
+        if t[0] == "f":
+            return ("f", int(t[1:], 16))
+        return (t[0], b"" if t[1:] in ("", "-") else bytes.fromhex(t[1:]))
+    lines = []
+    for it in items.split("+"):
+        g = it.split(",")
+        if g[0] != "m":
+            return False
+        path = bytes.fromhex(g[1]).decode("latin-1")
+        if path not in ref.bypath:
+            return False
+        lines.append((ref.bypath[path], [] if g[3] == "-" else [scalar(t) for t in g[3].split(":")]))
+    sels = {fp.sel for fp in ref.flat if fp.sel is not None}
+    lines.sort(key=lambda l: (len(ref.flat[l[0]].hard), 0 if l[0] in sels else 1))
+    for i, vals in lines:
+        for k, v in enumerate(vals):
+            if not ref.send(i, k, v):
+                return False
+    return True
 
 def nontrivial(case, impl):
     f = case.split(" ")
